@@ -1,5 +1,6 @@
 import MithrilModel.Store
 import MithrilModel.Importer
+import MithrilModel.ImportMany
 /-!
 # C13 — Imported chain data converges to the canonical chain under any roll-backs
 
@@ -289,5 +290,199 @@ example :
   · rw [← goodB_iff]; decide
   · rw [← goodTxB_iff]; decide
   · decide
+
+/-! ## a whole history of imports (multi-import induction, `MithrilModel/ImportMany.lean`)
+
+`ImportMany.step` is one `CardanoChainDataImporter::import` (early exit or scan + range importer),
+`ImportMany.runMany` a list of them, `ImportMany.trace` the (target, consumed replies) of the imports that
+scanned, `ImportMany.naive` the naive fold of a trace cut at the respective targets. -/
+
+/-- **Multi-import refinement.** From any chain (the empty store is one), after ANY list of imports —
+each with its own target, resume point, batch size, fuel and reply script — each of which exits early
+or scans a script that is `Good` relative to the store it starts from: (1) the stored blocks are the
+naive application of the consumed reply prefixes cut at the respective targets; (2) the store is a
+chain — which, with "no early exit ⇒ every stored block is below the target"
+(`ImportMany.not_early_below`), is all the next import needs: no hypothesis on roots, no monotone
+targets (`C13_multi_import_targets_not_monotone`); (3) from `RInv`, `RInv` holds after import `j` as
+soon as every scanning import up to `j` ended covered (all covered: after EVERY import), and the roots
+are then the cache of all complete ranges below the last scanned target; (4) without coverage, once an import has scanned, every prefix of `k` ranges that
+the store covers after every import is settled. -/
+theorem C13_multi_import_refines (S0 : List Block) (roots0 : List (Nat × ρ)) (is : List ImportMany.Imp)
+    (hS : Sorted S0) (hOk : ImportMany.Ok S0 is) :
+    (ImportMany.runMany R ⟨S0, roots0⟩ is).blocks = ImportMany.naive S0 (ImportMany.trace S0 is) ∧
+    Sorted (ImportMany.runMany R ⟨S0, roots0⟩ is).blocks ∧
+    (RInv R S0 roots0 → ∀ j, ImportMany.Covered S0 (is.take j) →
+      RInv R (ImportMany.runMany R ⟨S0, roots0⟩ (is.take j)).blocks (ImportMany.runMany R ⟨S0, roots0⟩ (is.take j)).roots ∧
+      (∀ T, ImportMany.lastT none (ImportMany.trace S0 (is.take j)) = some T →
+        (ImportMany.runMany R ⟨S0, roots0⟩ (is.take j)).roots
+          = cached R (ImportMany.runMany R ⟨S0, roots0⟩ (is.take j)).blocks ((T + 1) / LEN))) ∧
+    (∀ k T, (RInv R S0 roots0 ∨ ImportMany.PInv R S0 roots0 k) → ImportMany.CoversAll k S0 is →
+      ImportMany.lastT none (ImportMany.trace S0 is) = some T →
+      ImportMany.PInv R (ImportMany.runMany R ⟨S0, roots0⟩ is).blocks (ImportMany.runMany R ⟨S0, roots0⟩ is).roots k) :=
+  ImportMany.many_refines R S0 roots0 is hS hOk
+
+/-- the same with ONE cut at the end, when every block consumed above a target is rolled back by the
+next scan's replies (`ImportMany.Relost`, decidable; e.g. by the echo of the resume point) -/
+theorem C13_multi_import_single_cut (S0 : List Block) (t0 : Nat) (is : List ImportMany.Imp) (hS : Sorted S0)
+    (hOk : ImportMany.Ok S0 is) (h0 : ∀ x ∈ S0, x.number ≤ t0) (hL : ImportMany.Relost S0 t0 (ImportMany.trace S0 is)) :
+    ImportMany.runManyB S0 is
+      = (applyAll S0 ((ImportMany.trace S0 is).flatMap (·.2))).filter
+          (fun x => x.number ≤ ImportMany.lastTarget t0 (ImportMany.trace S0 is)) :=
+  ImportMany.many_refines_single_cut S0 t0 is hS hOk h0 hL
+
+/-- **Multi-import convergence.** Two nodes — different start stores, different NUMBERS of imports,
+intermediate targets, batch sizes, resume points, fuels, scripts — whose traces fold to the same chain
+end with the same blocks; with `RInv` at both starts, every scan covered and the same last scanned
+target, with the same roots; without coverage, with the same roots on every prefix of `k` ranges both
+stores cover after every import. -/
+theorem C13_multi_import_convergence (is is' : List ImportMany.Imp) (n n' : ImportMany.Node ρ)
+    (hS : Sorted n.blocks) (hS' : Sorted n'.blocks) (hOk : ImportMany.Ok n.blocks is) (hOk' : ImportMany.Ok n'.blocks is')
+    (hsame : ImportMany.naive n.blocks (ImportMany.trace n.blocks is) = ImportMany.naive n'.blocks (ImportMany.trace n'.blocks is')) :
+    (ImportMany.runMany R n is).blocks = (ImportMany.runMany R n' is').blocks ∧
+    (∀ T, RInv R n.blocks n.roots → RInv R n'.blocks n'.roots → ImportMany.Covered n.blocks is → ImportMany.Covered n'.blocks is' →
+      ImportMany.lastT none (ImportMany.trace n.blocks is) = some T → ImportMany.lastT none (ImportMany.trace n'.blocks is') = some T →
+      (ImportMany.runMany R n is).roots = (ImportMany.runMany R n' is').roots) ∧
+    (∀ k T T', (RInv R n.blocks n.roots ∨ ImportMany.PInv R n.blocks n.roots k) →
+      (RInv R n'.blocks n'.roots ∨ ImportMany.PInv R n'.blocks n'.roots k) →
+      ImportMany.CoversAll k n.blocks is → ImportMany.CoversAll k n'.blocks is' →
+      ImportMany.lastT none (ImportMany.trace n.blocks is) = some T → ImportMany.lastT none (ImportMany.trace n'.blocks is') = some T' →
+      (ImportMany.runMany R n is).roots.filter (fun r => r.1 < k) = (ImportMany.runMany R n' is').roots.filter (fun r => r.1 < k)) :=
+  ImportMany.many_convergence R is is' n n' hS hS' hOk hOk' hsame
+
+/-- the fresh single import is one instance of the convergence theorem -/
+theorem C13_multi_import_vs_fresh (is : List ImportMany.Imp) (n : ImportMany.Node ρ) (f : ImportMany.Imp)
+    (hS : Sorted n.blocks) (hOk : ImportMany.Ok n.blocks is) (hG : Good f.c none [] f.rs)
+    (hsame : ImportMany.naive n.blocks (ImportMany.trace n.blocks is)
+      = (applyAll [] (ImportMany.consumed [] f)).filter (fun x => x.number ≤ f.c.untilN)) :
+    (ImportMany.runMany R n is).blocks = (importF R f.c f.fuel [] [] f.rs).1 ∧
+    (RInv R n.blocks n.roots → ImportMany.Covered n.blocks is →
+      ImportMany.lastT none (ImportMany.trace n.blocks is) = some f.c.untilN →
+      Below (importF R f.c f.fuel [] [] f.rs).1 ((f.c.untilN + 1) / LEN) →
+      (ImportMany.runMany R n is).roots = (importF R f.c f.fuel [] [] f.rs).2.1) :=
+  ImportMany.many_vs_fresh R is n f hS hOk hG hsame
+
+/-- **Multi-import, transactions.** From a chain with its table, after ANY list of imports each of which
+exits early or scans a `Good`, `GoodTx` script: the blocks are those of `C13_multi_import_refines` and
+the table holds exactly the rows of the stored blocks -/
+theorem C13_multi_import_transactions (txsOf : Nat → List Nat) (is : List ImportMany.Imp) (p : List Block × List TxRow)
+    (hS : Sorted p.1) (hT : TInv txsOf p.1 p.2) (hOk : ImportMany.OkT txsOf p.1 is) :
+    (ImportMany.runManyT txsOf p is).1 = ImportMany.runManyB p.1 is ∧
+    (ImportMany.runManyT txsOf p is).1 = ImportMany.naive p.1 (ImportMany.trace p.1 is) ∧
+    (ImportMany.runManyT txsOf p is).2 = rowsOf txsOf (ImportMany.runManyT txsOf p is).1 :=
+  ImportMany.many_transactions txsOf is p hS hT hOk
+
+/-- two nodes whose traces fold to the same chain end with the same blocks and the same `cardano_tx` table -/
+theorem C13_multi_import_transactions_convergence (txsOf : Nat → List Nat) (is is' : List ImportMany.Imp)
+    (p p' : List Block × List TxRow) (hS : Sorted p.1) (hS' : Sorted p'.1) (hT : TInv txsOf p.1 p.2) (hT' : TInv txsOf p'.1 p'.2)
+    (hOk : ImportMany.OkT txsOf p.1 is) (hOk' : ImportMany.OkT txsOf p'.1 is')
+    (hsame : ImportMany.naive p.1 (ImportMany.trace p.1 is) = ImportMany.naive p'.1 (ImportMany.trace p'.1 is')) :
+    ImportMany.runManyT txsOf p is = ImportMany.runManyT txsOf p' is' :=
+  ImportMany.many_transactions_convergence txsOf is is' p p' hS hS' hT hT' hOk hOk' hsame
+
+/-! ### what the next import needs, and what an uncovered import does to it -/
+
+/-- `hU` of the next import is derived from "no early exit", whatever the earlier targets -/
+theorem C13_multi_import_target_bound {S : List Block} {target : Nat} (h : ImportMany.early S target = false) :
+    ∀ x ∈ S, x.number < target :=
+  ImportMany.not_early_below h
+
+/-- the targets of the imports that scan need not be monotone (a roll-back or a short delivery leaves
+the store below an earlier target): a good history with scanned targets 10, 12, 6 -/
+theorem C13_multi_import_targets_not_monotone :
+    let a : ImportMany.Imp := ⟨⟨0, 10, 100⟩, 5, ImportMany.fwds ImportMany.blk 1 10⟩
+    let b : ImportMany.Imp := ⟨⟨100, 12, 100⟩, 5, [some (.back 100), some (.back 30), some (.fwd (ImportMany.blk' 4)), none]⟩
+    let c : ImportMany.Imp := ⟨⟨41, 6, 100⟩, 5, [some (.back 41), some (.fwd (ImportMany.blk' 5)), some (.fwd (ImportMany.blk' 6)), some (.fwd (ImportMany.blk' 7))]⟩
+    ImportMany.okB [] [a, b, c] = true ∧ (ImportMany.trace [] [a, b, c]).map (·.1) = [10, 12, 6] ∧
+    ImportMany.runManyB [] [a, b, c]
+      = [ImportMany.blk 1, ImportMany.blk 2, ImportMany.blk 3, ImportMany.blk' 4, ImportMany.blk' 5, ImportMany.blk' 6] :=
+  ImportMany.targets_not_monotone
+
+/-- an UNCOVERED import still leaves the roots an exact cache of the stored blocks; only `Below` is lost -/
+theorem C13_uncovered_import_keeps_cache (c : Cfg) (fuel : Nat) (S0 : List Block) (roots0 : List (Nat × ρ)) (rs : List (Option Ev))
+    (hS : Sorted S0) (hU : ∀ x ∈ S0, x.number ≤ c.untilN) (hG : Good c none S0 rs) (hR : RInv R S0 roots0) :
+    (importF R c fuel S0 roots0 rs).2.1 = cached R (importF R c fuel S0 roots0 rs).1 ((c.untilN + 1) / LEN) :=
+  ImportMany.uncovered_keeps_cache R c fuel S0 roots0 rs hS hU hG hR
+
+/-- … it is REGAINED by a next import whose first store call is a roll-back that finds an anchor -/
+theorem C13_rollback_regains_roots_invariant (c : Cfg) (fuel : Nat) (S0 : List Block) (K : Nat) (rs : List (Option Ev)) (s n : Nat)
+    (hS : Sorted S0) (hU : ∀ x ∈ S0, x.number ≤ c.untilN) (hG : Good c none S0 rs)
+    (hfirst : (poll c none [] rs).1 = some (.backward s)) (ha : anchor S0 s = some n) :
+    (importF R c (fuel + 1) S0 (cached R S0 K) rs).2.1
+      = cached R (importF R c (fuel + 1) S0 (cached R S0 K) rs).1 ((c.untilN + 1) / LEN) ∧
+    (Below (importF R c (fuel + 1) S0 (cached R S0 K) rs).1 ((c.untilN + 1) / LEN) →
+      RInv R (importF R c (fuel + 1) S0 (cached R S0 K) rs).1 (importF R c (fuel + 1) S0 (cached R S0 K) rs).2.1) :=
+  ImportMany.import_regains R c fuel S0 K rs s n hS hU hG hfirst ha
+
+/-- … and otherwise LOST FOR GOOD: uncovered import 1 (20 of 40 blocks), covered imports 2 and 3 — all
+good; `RInv` fails after import 2 and after import 3, the blocks are those of a fresh import, the roots
+are not (known finding `C13-partial-range-root`, shown to persist through later covered imports) -/
+theorem C13_roots_invariant_lost_for_good :
+    ImportMany.Ok [] [ImportMany.i1, ImportMany.i2, ImportMany.i3] ∧ ¬ ImportMany.Covered [] [ImportMany.i1] ∧
+    ImportMany.Covered (ImportMany.stepB [] ImportMany.i1) [ImportMany.i2, ImportMany.i3] ∧
+    ¬ RInv ImportMany.Rex (ImportMany.runMany ImportMany.Rex ⟨[], []⟩ [ImportMany.i1, ImportMany.i2]).blocks
+        (ImportMany.runMany ImportMany.Rex ⟨[], []⟩ [ImportMany.i1, ImportMany.i2]).roots ∧
+    ¬ RInv ImportMany.Rex (ImportMany.runMany ImportMany.Rex ⟨[], []⟩ [ImportMany.i1, ImportMany.i2, ImportMany.i3]).blocks
+        (ImportMany.runMany ImportMany.Rex ⟨[], []⟩ [ImportMany.i1, ImportMany.i2, ImportMany.i3]).roots ∧
+    (ImportMany.runMany ImportMany.Rex ⟨[], []⟩ [ImportMany.i1, ImportMany.i2, ImportMany.i3]).blocks
+      = (ImportMany.runMany ImportMany.Rex ⟨[], []⟩ [ImportMany.iFresh]).blocks ∧
+    (ImportMany.runMany ImportMany.Rex ⟨[], []⟩ [ImportMany.i1, ImportMany.i2, ImportMany.i3]).roots
+      ≠ (ImportMany.runMany ImportMany.Rex ⟨[], []⟩ [ImportMany.iFresh]).roots :=
+  ImportMany.lost_for_good
+
+/-- what ALWAYS survives, covered or not: one scanning import keeps every settled prefix the store still
+covers (roll-backs below it are recomputed, partial ranges above it do not matter) -/
+theorem C13_settled_prefix_survives (c : Cfg) (fuel : Nat) (S0 : List Block) (roots0 : List (Nat × ρ)) (rs : List (Option Ev)) (k : Nat)
+    (hS : Sorted S0) (hU : ∀ x ∈ S0, x.number ≤ c.untilN) (hG : Good c none S0 rs) (hP : ImportMany.PInv R S0 roots0 k)
+    (hB : Below (importF R c fuel S0 roots0 rs).1 k) :
+    ImportMany.PInv R (importF R c fuel S0 roots0 rs).1 (importF R c fuel S0 roots0 rs).2.1 k :=
+  ImportMany.import_settled R c fuel S0 roots0 rs k hS hU hG hP hB
+
+/-! ### the driver's history -/
+
+/-- good scripts never hit the foreign-key panic of the batch insert -/
+theorem C13_no_panic_on_good_scripts (txsOf : Nat → List Nat) (c : Cfg) (fuel : Nat) (lp : Option Nat) (S V : List Block)
+    (T : List TxRow) (roots legacy : List (Nat × ρ)) (rs : List (Option Ev)) (ops : List String)
+    (hI : Inv c S [] V) (hG : Good c lp V rs) (hGT : GoodTx txsOf V rs) (hT : TInv txsOf S T) :
+    (runX txsOf c fuel lp S T roots legacy rs ops).panicked = false :=
+  ImportMany.runX_no_panic txsOf c fuel lp S V T roots legacy rs ops hI hG hGT hT
+
+/-- **the driver's whole history (`Importer.importStep` over imports and restarts) is a `runMany`**:
+with root functions that read the join, from a chain with its table, when every import exits early or
+reads a `Good`, `GoodTx` script: no import panics, and blocks, both root tables and the transaction
+table are those of `runMany` / `runManyT` on the import requests `ImportMany.impsOf` — so the three
+multi-import theorems apply to what the driver executes -/
+theorem C13_driver_history_is_multi_import (txsOf : Nat → List Nat) (R0 RL0 : (Nat → List Nat) → List Block → Option ρ)
+    (hR : LocalRoot R0) (hRL : LocalRoot RL0) (maxPer : Nat) (ops : List ImportMany.Op) (st : Importer.St ρ)
+    (hS : Sorted st.blocks) (hT : TInv txsOf st.blocks st.txs)
+    (hOk : ImportMany.OkT txsOf st.blocks
+      (ImportMany.impsOf txsOf (fun T => R0 (txsIn T)) (fun T => RL0 (txsIn T)) maxPer st ops)) :
+    (ImportMany.drive txsOf (fun T => R0 (txsIn T)) (fun T => RL0 (txsIn T)) maxPer st ops).2 = false ∧
+    (ImportMany.drive txsOf (fun T => R0 (txsIn T)) (fun T => RL0 (txsIn T)) maxPer st ops).1.blocks
+      = ImportMany.runManyB st.blocks (ImportMany.impsOf txsOf (fun T => R0 (txsIn T)) (fun T => RL0 (txsIn T)) maxPer st ops) ∧
+    (ImportMany.drive txsOf (fun T => R0 (txsIn T)) (fun T => RL0 (txsIn T)) maxPer st ops).1.roots
+      = (ImportMany.runMany (R0 txsOf) ⟨st.blocks, st.roots⟩
+          (ImportMany.impsOf txsOf (fun T => R0 (txsIn T)) (fun T => RL0 (txsIn T)) maxPer st ops)).roots ∧
+    (ImportMany.drive txsOf (fun T => R0 (txsIn T)) (fun T => RL0 (txsIn T)) maxPer st ops).1.legacy
+      = (ImportMany.runMany (RL0 txsOf) ⟨st.blocks, st.legacy⟩
+          (ImportMany.impsOf txsOf (fun T => R0 (txsIn T)) (fun T => RL0 (txsIn T)) maxPer st ops)).roots ∧
+    (ImportMany.drive txsOf (fun T => R0 (txsIn T)) (fun T => RL0 (txsIn T)) maxPer st ops).1.txs
+      = (ImportMany.runManyT txsOf (st.blocks, st.txs)
+          (ImportMany.impsOf txsOf (fun T => R0 (txsIn T)) (fun T => RL0 (txsIn T)) maxPer st ops)).2 :=
+  ImportMany.drive_is_runMany txsOf R0 RL0 hR hRL maxPer ops st hS hT hOk
+
+/-- non-vacuity of the multi-import theorems: a history with a consumed forward above the target, an
+early exit and a chain switch with re-included transactions satisfies `Ok`, `OkT`, `Covered`, `Relost`;
+two other nodes (1 import; 3 imports with other targets and batch sizes) fold to the same chain -/
+example :
+    ImportMany.okB [] [ImportMany.c1, ImportMany.cE, ImportMany.c2] = true ∧
+    ImportMany.okTB ImportMany.txEx [] [ImportMany.c1, ImportMany.cE, ImportMany.c2] = true ∧
+    ImportMany.coveredB [] [ImportMany.c1, ImportMany.cE, ImportMany.c2] = true ∧
+    ImportMany.relostB [] 0 (ImportMany.trace [] [ImportMany.c1, ImportMany.cE, ImportMany.c2]) = true ∧
+    ImportMany.okB [] [ImportMany.d1, ImportMany.d2, ImportMany.d3] = true ∧
+    ImportMany.naive [] (ImportMany.trace [] [ImportMany.c1, ImportMany.cE, ImportMany.c2])
+      = ImportMany.naive [] (ImportMany.trace [] [ImportMany.d1, ImportMany.d2, ImportMany.d3]) ∧
+    ImportMany.naive [] (ImportMany.trace [] [ImportMany.c1, ImportMany.cE, ImportMany.c2])
+      = ImportMany.naive [] (ImportMany.trace [] [ImportMany.cFresh]) := by
+  decide +kernel
 
 end C13
